@@ -79,6 +79,9 @@ impl StateMachine<'_> {
     fn enter_merge_conflict(&mut self, merge_parents: &MergeParents) -> bool {
         use State::*;
         if let Some(commit) = parse_merge_marker(&self.line, "++<<<<<<<") {
+            // Lines removed/added just before the conflict region are still buffered: paint them
+            // now, otherwise they would be shown after the whole conflict region.
+            self.painter.paint_buffered_minus_and_plus_lines();
             self.state = MergeConflict(merge_parents.clone(), Ours);
             self.painter.merge_conflict_commit_names[Ours] = Some(commit.to_string());
             true
